@@ -4,7 +4,7 @@ Same op alphabet as C07 on one project, plus `save; restart; load` at seeded poi
 (the actor keeps linking on the loaded project) and the foreign-file variant in which
 the optional slot chunk (SLnK) is absent from every module.
 """
-from .. import builder, chunkio, env, seeds, simio  # noqa: F401
+from .. import builder, chunkio, env, seeds, simio, noise  # noqa: F401
 from ..runner import Acc
 from ..simio import Ctx, HarnessTimeout, active
 from . import c07
@@ -20,7 +20,9 @@ RULE = (
     "link tables of every module (trailing freed slots stripped) and the edge set are compared before/after and the "
     "loaded tables are checked for mutual consistency; in slot-less mode every SLnK chunk is removed from the saved "
     "bytes first (then graph, in-link order and consistency are demanded, not slot numbers). non-trivial = a restart "
-    "happened with >= 1 edge; distinct = distinct op lists"
+    "happened with >= 1 edge; distinct = distinct op lists. 14% of the histories build their graphs inside the project "
+    "embedded in a MetaModule (and around it in the host); every oracle is then applied to the host and, recursively, to "
+    "every embedded project"
 )
 STATE_MEASURE = "hash of all link tables at each restart"
 COMPONENTS = {"real": ["Project.connect", "Project.chunks (SLNK/SLnK writer)", "ModuleReader.process_SLNK/SLnK", "SunVoxReader.process_end_of_file (slot/out-link rebuild)"], "stub": ["SimFile", "chunk stream rewriter (SLnK removal)"]}
@@ -39,6 +41,16 @@ def strip(l):
 
 def tables(project):
     return {m.index: (strip(m.in_links), strip(m.in_link_slots), strip(m.out_links), strip(m.out_link_slots)) for m in project.modules if m is not None}
+
+
+def projects_of(project, path=(), depth=0):
+    """The project and, recursively, the projects embedded in its MetaModules: (path, project)."""
+    yield path, project
+    if depth >= 3:
+        return
+    for m in project.modules:
+        if m is not None and type(m).__name__ == "MetaModule" and getattr(m, "project", None) is not None:
+            yield from projects_of(m.project, path + (m.index,), depth + 1)
 
 
 def _v(oracle, **kw):
@@ -73,8 +85,10 @@ def execute(case):
         k = op["k"]
         if k == "save_load":
             p = s.project
-            before = tables(p)
-            edges_before = sorted(c07.edges_of(p))
+            before_all = {path: (tables(q), sorted(c07.edges_of(q))) for path, q in projects_of(p)}
+            before, edges_before = before_all[()]
+            if any(e for path, (_, e) in before_all.items() if path):
+                probes["restart_with_edges_in_an_embedded_project"] = probes.get("restart_with_edges_in_an_embedded_project", 0) + 1
             mode = "slotless" if op.get("slotless") else "slots"
             data = p.read()
             chunks = chunkio.split(data)
@@ -98,25 +112,31 @@ def execute(case):
                     violations.append(_v("reload_raises", mode=mode, exc=type(e).__name__, detail={"op": i, "msg": str(e)[:200]}))
             env.LOG.take()
             if loaded is not None:
-                after = tables(loaded)
-                edges_after = sorted(c07.edges_of(loaded))
-                if edges_after != edges_before:
-                    violations.append(_v("graph_preserved", mode=mode, detail={"op": i, "before": edges_before[:8], "after": edges_after[:8]}))
+                after_all = {path: (q, tables(q), sorted(c07.edges_of(q))) for path, q in projects_of(loaded)}
                 names = ("in_links", "in_link_slots", "out_links", "out_link_slots")
                 which = (0, 1, 2, 3) if mode == "slots" else (0,)
-                for idx in sorted(before):
-                    a, b = before[idx], after.get(idx)
-                    if b is None:
-                        violations.append(_v("module_missing", mode=mode, detail={"op": i, "module": idx}))
+                for path in sorted(before_all):
+                    where = "embedded" if path else "top"
+                    b_tables, b_edges = before_all[path]
+                    if path not in after_all:
+                        violations.append(_v("embedded_project_missing", mode=mode, detail={"op": i, "path": list(path)}))
                         continue
-                    for w in which:
-                        if a[w] != b[w]:
-                            violations.append(_v("tables_preserved", mode=mode, table=names[w], detail={"op": i, "module": idx, "before": a[w], "after": b[w]}))
-                            break
-                errs = c07.consistency_errors(loaded)
-                if errs:
-                    violations.append(_v("loaded_mutual_consistency", mode=mode, what=errs[0][0], detail={"op": i, "errs": errs[:4]}))
-                if edges_before:
+                    q, a_tables, a_edges = after_all[path]
+                    if a_edges != b_edges:
+                        violations.append(_v("graph_preserved", mode=mode, where=where, detail={"op": i, "path": list(path), "before": b_edges[:8], "after": a_edges[:8]}))
+                    for idx in sorted(b_tables):
+                        a, b = b_tables[idx], a_tables.get(idx)
+                        if b is None:
+                            violations.append(_v("module_missing", mode=mode, where=where, detail={"op": i, "path": list(path), "module": idx}))
+                            continue
+                        for w in which:
+                            if a[w] != b[w]:
+                                violations.append(_v("tables_preserved", mode=mode, where=where, table=names[w], detail={"op": i, "path": list(path), "module": idx, "before": a[w], "after": b[w]}))
+                                break
+                    errs = c07.consistency_errors(q)
+                    if errs:
+                        violations.append(_v("loaded_mutual_consistency", mode=mode, where=where, what=errs[0][0], detail={"op": i, "path": list(path), "errs": errs[:4]}))
+                if any(e for _, e in before_all.values()):
                     nontrivial = True
                 foreign = s.foreign
                 s = builder.Session(loaded)
@@ -173,13 +193,47 @@ def generate_hub(r):
         for _ in range(r.randint(0, 4)):
             ops.append(builder.gen_link_op(r))
         ops.append({"k": "save_load", "slotless": slotless})
+    noise.sprinkle(r, ops)
+    return {"property": PROPERTY, "world": "links+restart", "ops": ops}
+
+
+def generate_embedded(r):
+    """Link graphs inside the project embedded in a MetaModule (and in the host around it): the
+    embedded project is written and read by a nested writer / reader inside the host's own."""
+    mm = builder.TYPE_NAMES.index("MetaModule")
+    ops = [{"k": "mod", "t": r.randrange(1000), "any": False} for _ in range(r.randint(0, 3))]
+    ops.append({"k": "mod", "t": mm})
+    if r.random() < 0.3:
+        ops.append({"k": "mod", "t": mm})
+    ops += [{"k": "mod", "t": r.randrange(1000), "any": False} for _ in range(r.randint(0, 3))]
+    for _ in range(r.randint(2, 6)):
+        ops.append({"k": "embed", "m": r.randrange(100), "op": {"k": "mod", "t": r.randrange(1000), "any": False}})
+    slotless_run = r.random() < 0.2
+    for _ in range(r.randint(1, 4)):
+        for _ in range(r.randint(1, 12)):
+            x = r.random()
+            if x < 0.5:
+                ops.append({"k": "embed", "m": r.randrange(100), "op": builder.gen_link_op(r)})
+            elif x < 0.55:
+                ops.append({"k": "embed", "m": r.randrange(100), "op": {"k": "hubscn", "hub": r.randrange(100), "fan": r.choice([1, 2, 3, 6]), "t": r.randrange(1000), "n": r.choice([5, 20, 40]), "v": r.getrandbits(62)}})
+            elif x < 0.62:
+                ops.append({"k": "embed", "m": r.randrange(100), "op": {"k": "mod", "t": r.randrange(1000), "any": False}})
+            elif x < 0.74:
+                ops.append({"k": "save"})
+            else:
+                ops.append(builder.gen_link_op(r))
+        ops.append({"k": "save_load", "slotless": slotless_run and r.random() < 0.7})
+    noise.sprinkle(r, ops)
     return {"property": PROPERTY, "world": "links+restart", "ops": ops}
 
 
 def generate(seed, i, tier="quick"):
     r = seeds.rng(seed, "c08hist", i)
-    if r.random() < 0.06:
+    u = r.random()
+    if u < 0.06:
         return generate_hub(r)
+    if u < 0.2:
+        return generate_embedded(r)
     ops = [{"k": "mod", "t": r.randrange(1000), "any": False} for _ in range(r.randint(1, 7))]
     slotless_run = r.random() < 0.3
     fp = r.choice([0.0, 0.0, 0.1, 0.25])
@@ -193,6 +247,7 @@ def generate(seed, i, tier="quick"):
             else:
                 ops.append(builder.gen_link_op(r, foreign_p=fp))
         ops.append({"k": "save_load", "slotless": slotless_run and r.random() < 0.7})
+    noise.sprinkle(r, ops)
     return {"property": PROPERTY, "world": "links+restart", "ops": ops}
 
 
